@@ -54,14 +54,14 @@ func regPrio3[
 
 	// one complete honest run per measurement: collects the valid encodings of every message type
 	type run struct {
-		nonce                                                count.Nonce
-		pub                                                  PubS
-		in                                                   []IS
-		states                                               []*PSt
-		shares                                               []PSh
-		msg                                                  *PM
-		outs                                                 []*OS
-		pubB, in0B, in1B, shB, stB, msgB, outB, aggB         []byte
+		nonce                                        count.Nonce
+		pub                                          PubS
+		in                                           []IS
+		states                                       []*PSt
+		shares                                       []PSh
+		msg                                          *PM
+		outs                                         []*OS
+		pubB, in0B, in1B, shB, stB, msgB, outB, aggB []byte
 	}
 	var runs []run
 	aggs := []AS{v.AggregateInit(), v.AggregateInit()}
@@ -113,13 +113,22 @@ func regPrio3[
 	}
 
 	// decoders: the receiving object is sized with New(params) as the package's own tests do
-	decPub := func(b []byte) (*PubS, bool) { s := PPubS(new(PubS)).New(&params); return s, PPubS(s).UnmarshalBinary(b) == nil }
+	decPub := func(b []byte) (*PubS, bool) {
+		s := PPubS(new(PubS)).New(&params)
+		return s, PPubS(s).UnmarshalBinary(b) == nil
+	}
 	decIn := func(b []byte, agg uint) (*IS, bool) {
 		s := PIS(new(IS)).New(&params, agg)
 		return s, PIS(s).UnmarshalBinary(b) == nil
 	}
-	decSh := func(b []byte) (*PSh, bool) { s := PPSh(new(PSh)).New(&params); return s, PPSh(s).UnmarshalBinary(b) == nil }
-	decSt := func(b []byte) (*PSt, bool) { s := PPSt(new(PSt)).New(&params); return s, PPSt(s).UnmarshalBinary(b) == nil }
+	decSh := func(b []byte) (*PSh, bool) {
+		s := PPSh(new(PSh)).New(&params)
+		return s, PPSh(s).UnmarshalBinary(b) == nil
+	}
+	decSt := func(b []byte) (*PSt, bool) {
+		s := PPSt(new(PSt)).New(&params)
+		return s, PPSt(s).UnmarshalBinary(b) == nil
+	}
 	decMsg := func(b []byte) (*PM, bool) { s := PPM(new(PM)).New(&params); return s, PPM(s).UnmarshalBinary(b) == nil }
 	decOut := func(b []byte) (*OS, bool) { s := POS(new(OS)).New(&params); return s, POS(s).UnmarshalBinary(b) == nil }
 	decAgg := func(b []byte) (*AS, bool) { s := PAS(new(AS)).New(&params); return s, PAS(s).UnmarshalBinary(b) == nil }
